@@ -485,7 +485,7 @@ theorem run_eltInv {s : St} (sched : List Nat) (h : EltInv s) : EltInv (run s sc
   | nil => exact h
   | cons k rest ih => exact ih (step_eltInv k h)
 
-theorem init_eltInv (elt wl : Bool) (tbl) (pre) (progs) : EltInv (init elt wl tbl pre progs) := by
+theorem init_eltInv (elt wl : Bool) (tbl) (dtbl) (pre) (progs) : EltInv (init elt wl tbl dtbl pre progs) := by
   cases elt <;>
   (refine ⟨?_, ?_, ?_, ?_, ?_, ?_, ?_, ?_, ?_, ?_⟩ <;> simp [init, inH, inElt, running, hasLoop, FinOk])
 
